@@ -7,6 +7,7 @@ images are given to the Coq model (Model/Crash.v) and the specification monitor 
 import json, re, time
 from vlib import harness, util, coqrun, verdict
 from vlib.coqterm import C, Raw, show
+from props import partlib
 
 ASSUMPTIONS = [
     "a crash image is: files written earlier in the operation complete, the file being written cut at any length, files written later untouched; writes to one file land in order (what a kernel may reorder between files with fsync off is not explored)",
@@ -252,6 +253,41 @@ def run(out, tier, seed, gate):
             term_ids.append(ct["id"])
     vals = coqrun.eval_terms("C04", "Base.Tactics Base.ListX Model.Crash", terms, shard_size=60) if terms else []
     predicted = {tid: sum(x[2] for x in v) for tid, v in zip(term_ids, vals)}
+    # the partition model's prediction (Model/PartCrash.v crash_restart - the object of C04_partition_crash): for images that only
+    # touch the files of the last segment, a = batches completely inside the cut log, b = complete index entries
+    pterms, pterm_ids = [], []
+    for ct in crash_traces:
+        m = meta[ct["id"]]
+        if m["segs"] is None or not m["segs"]:
+            continue
+        last = max(m["segs"])
+        paths = {c["path"] for c in m["cuts"]}
+        if not paths or not paths <= {last + ".log", last + ".index"} or any(c["len"] is None for c in m["cuts"]):
+            continue
+        cutmap = {c["path"]: c["len"] for c in m["cuts"]}
+        L = cutmap.get(last + ".log", m["sizes"].get(last + ".log"))
+        I = cutmap.get(last + ".index", m["sizes"].get(last + ".index"))
+        if L is None or I is None:
+            continue
+        a, pos = 0, 0
+        for _, payload in m["segs"][last]:
+            if pos + 24 + payload <= L:
+                a, pos = a + 1, pos + 24 + payload
+            else:
+                break
+        b = I // 16
+        prefix = json.loads(json.dumps(m["t"]["ops"][:m["k"] + 1]))
+        for o in prefix:
+            if o.get("consumer"):
+                o["consumer"] = {"kind": "consumer", "id": 1}
+        mops, _ = partlib.model_ops({"ops": prefix})
+        cfgt = show(partlib.cfg_term(m["t"]["cfg"]))
+        pterms.append("(let p' := crash_restart %s 1 %d %d (snd (pfinal (%s, part_new %s 1) %s)) in (nlen (part_all p'), abase p'))" % (cfgt, a, b, cfgt, cfgt, show(mops)))
+        pterm_ids.append(ct["id"])
+    pvals = coqrun.eval_terms("C04part", "Base.Tactics Base.ListX Model.Part Model.PartCrash Proofs.PartBasics Proofs.PartHistory", pterms, shard_size=40) if pterms else []
+    part_predicted = {tid: (int(v[0]), int(v[1])) for tid, v in zip(pterm_ids, pvals)}
+    stats["images_with_partition_model_prediction"] = len(part_predicted)
+    stats["partition_model_matches"] = 0
     stats["images_with_exact_prediction"] = len(predicted)
     stats["exact_matches"] = 0
     reported = 0
@@ -277,6 +313,17 @@ def run(out, tier, seed, gate):
                             reported += 1
                     else:
                         stats["exact_matches"] += 1
+                if ct["id"] in part_predicted:
+                    pn, pnext = part_predicted[ct["id"]]
+                    new_offs = [mm["o"] for mm in outs[4]["msgs"][nrec:]] if outs[4].get("r") == "ok" else None
+                    if pn != nrec or (new_offs is not None and new_offs[:1] != [pnext]):
+                        if reported < 5:
+                            out.violation("partmodel-" + ct["id"].replace("/", "_"), {"kind": "correspondence", "mode": "srv", "trace": ct, "image": m["name"], "cuts": m["cuts"],
+                                          "what": "the server exposes %d messages and numbers the next one %s on this image; Model/PartCrash.v crash_restart: %d messages, next offset %d" % (nrec, new_offs[:1] if new_offs else None, pn, pnext),
+                                          "no_longer_checks": "corr_C04_part (Model/PartCrash.v crash_restart vs the server started on the crash image)"}, no_failing_input=True)
+                            reported += 1
+                    else:
+                        stats["partition_model_matches"] += 1
                 key = "before" if nrec == len(m["before"]) else ("with" if nrec == len(m["with"]) else "between")
                 stats["recovered_lengths"][key] = stats["recovered_lengths"].get(key, 0) + 1
         if verdict_text:
